@@ -17,6 +17,19 @@ with the answer of the same call on a *fresh copy* (for `next(g)`: a fresh copy 
 kind of generator is opened and advanced the same number of times).  After the history every
 populated cache level is queried once more and compared with a fresh copy.
 
+Round 4: (a) histories over TWO OR THREE LIVE OBJECTS (`run_multi_history`): each object answers its own cache-populating
+queries, interleaved with the binary comparisons (==, !=, <=, <, >=, >, issubset, issuperset, isdisjoint) and binary operations
+(union / intersection / difference / symmetric difference, | & - ^, with and without retained names) BETWEEN the live
+objects (also an object with itself); the partner objects are related to the first (equal language through another state graph:
+copy / minified / trimmed / completed / relabelled + unreachable state / self product; sub- and superset; complement;
+unrelated), every answer is compared with the same call on fresh copies of the operand(s).  (b) live-object MODES: the
+long-lived DFA / NFA (and every fresh copy) is built either as a default copy or under allow_mutable_automata=True from
+plain containers (plain / aliased / copy_of_plain: harness/dfa_query_lib3.build_live, harness/c20_lib4.build_live_nfa);
+the frozen twin (definition as built) is what the model and the fresh copies start from.  (c) NFA histories on NFAs with
+lambda cycles of length 3–5 entered at different members by different first symbols, reads in bursts; the second NFA
+operand is live too (`OA`: it answers a query itself, `QE`: it is the left operand of ==); after an NFA history
+acceptance of ≤16 short words is asked once more on both live objects.
+
 The NFA half (memo of `_get_lambda_closures`): histories of accepts_input, read_input_stepwise, ==,
 DFA.from_nfa, eliminate_lambda, validate on one NFA object, same fresh-copy oracle, replayed by the
 Lean machine `nstep` (NHISTORY command), memoised closure table compared with a fresh one.
@@ -52,12 +65,22 @@ RULE = ("cases = (valid DFA, history of ≤30 public calls on one instance, incl
         "callable whose ranking changes between calls; correlated chains: a call starts at the previous answer with "
         "strictness / direction / window / ranking flipped); corpus (mutant killers, written-out successor loops, short-after-long and long-after-short "
         "lengths, shared-key pairs, generators across clear_cache), all histories of length ≤2 (thorough: ≤3) over 18 "
-        "call groups on 20 DFAs, then random histories on shaped random DFAs (≤6 states); evaluations = calls compared "
+        "call groups on 20 DFAs, then random histories on shaped random DFAs (≤6 states); round 4: histories over 2–3 LIVE "
+        "DFAs related by language (equal through another graph / sub- / superset / complement / unrelated): per-object random "
+        "histories interleaved with binary comparisons and Boolean operations between the live objects (all pairs of 14 "
+        "cache-populating call groups × all 9 comparisons on 8 fixed pairs, then random), every answer compared with fresh "
+        "copies of the operands; live objects built as default copies or under allow_mutable_automata=True from plain / "
+        "aliased containers / as a copy of such an object (25–45 % of the random histories, all corpus histories); NFA "
+        "histories: random NFAs, lambda-dense NFAs and NFAs with a lambda cycle of length 3–5 entered at different members "
+        "by different first symbols (all ordered pairs of entry+exit words on 9 fixed ones), reads in bursts, a second live "
+        "NFA operand, same modes; evaluations = calls compared "
         "with a fresh copy; a history is non-trivial when it contains ≥2 cache-touching calls on a DFA with a "
         "non-empty language; distinct = distinct (definition, history)")
 ASSUMPTIONS = [
     "lengths k are naturals (negative lengths index the caches from the end and are history-dependent: finding F18)",
-    "the DFA definition is immutable (C18); the object stays referenced while it is queried",
+    "the DFA definition is immutable (C18); the object stays referenced while it is queried; under allow_mutable_automata=True "
+    "the caller does not touch the containers it handed over, and answers are judged against fresh objects built the same "
+    "way from the definition as built (whether the library changed the containers is only counted: C18's clause)",
     "queries that never touch the caches (==, <=, issubset, isdisjoint, complement, union, …) are opaque in the model; "
     "their history independence is only sampled (compared with a fresh copy), not proved; minify / to_partial are "
     "modelled as far as they touch the instance (the `_get_digraph` memo), the rest of their body is an arbitrary "
@@ -632,6 +655,7 @@ def _run_multi_history(ctx: Ctx, refs, steps, origin: str, mode: str, fresh_memo
             done = steps[: i + 1]
             break
     hung = len(done) < len(steps) or (real and real[-1] == ("err", "_Timeout"))
+    tail = []
     if not hung:
         for i, x in enumerate(live):
             swept = []
@@ -643,8 +667,10 @@ def _run_multi_history(ctx: Ctx, refs, steps, origin: str, mode: str, fresh_memo
                     s = dict(q="BIN", on=i, op=op, arg=j)
                     a, f = binary(live[i], live[j], op), fresh_binary(s)
                     ctx.case(None)
-                    if a != f:
-                        bad.append((len(done), f"after the history, {show_step(s)} answers {a}; fresh copies of the operands answer {f}"))
+                    if a != f and not tail:
+                        tail.append(s)      # one more call of the history: the replay carries it as its last step
+                        bad.append((len(done) + 1, f"call #{len(done)} {show_step(s)} after {len(done)} earlier calls on {len(refs)} live "
+                                                   f"objects answered {a}; the same call on fresh copies of the operands answers {f}"))
         if mode != "frozen":
             for i, x in enumerate(live):
                 if Q3.definition_of(x) != Q3.definition_of(refs[i]):
@@ -658,7 +684,7 @@ def _run_multi_history(ctx: Ctx, refs, steps, origin: str, mode: str, fresh_memo
     if ctx.stats.get(f"multi_origin:{origin}", 0) % 300 == 1:
         ctx.sample(dict(describe_multi(refs, done[:8], mode), answers=[str(a)[:60] for a in real[:8]]))
     for upto, b in bad:
-        ctx.prop_fail(b, dict(describe_multi(refs, done[:upto], mode), what=b), None)
+        ctx.prop_fail(b, dict(describe_multi(refs, (list(done) + tail)[:upto], mode), what=b), None)
     if hung or bad:
         return
     # ---- model: the projection on each object
@@ -1267,6 +1293,7 @@ def _run_nfa_history(ctx: Ctx, n, other, hist, origin: str, mode: str):
                 ctx.corr_diff("NHISTORY closure memo content", dict(automaton=repr(n), history=hist[: i + 1], mode=mode),
                               repr(dict(inst._get_lambda_closures()))[:300], repr(fresh_table)[:300])
     # final sweep: acceptance of every short word, long-lived object (and the other live object) against fresh copies
+    extra = []
     if hist:
         for x, ref, kind in ((inst, n, "A"), (other_live, other, "OA")):
             for w in nfa_sweep_words(ref):
@@ -1274,15 +1301,20 @@ def _run_nfa_history(ctx: Ctx, n, other, hist, origin: str, mode: str):
                 a, f = call(lambda: x.accepts_input(w)), call(lambda: c.accepts_input(w))
                 ctx.case(None)
                 if a != f:
-                    bad.append((len(hist), f"after the history, NFA call {dict(q=kind, w=w)} answers {a}; a fresh copy answers {f}"))
+                    # the sweep question is one more call of the history: the replay carries it as its last call
+                    extra.append(dict(q=kind, w=w))
+                    bad.append((len(hist) + 1, f"NFA call #{len(hist)} {extra[0]} after {len(hist)} earlier calls answered {a}; "
+                                               f"a fresh copy answers {f}"))
                     break
+            if extra:
+                break
         if mode != "frozen" and L4.nfa_definition_of(inst) != L4.nfa_definition_of(n):
             ctx.stat("nfa:definition_changed_under_the_mutable_option")      # C18's clause; here only counted
     ctx.case((enc, mode, json.dumps(hist, sort_keys=True)) if len(hist) >= 2 and n.final_states else None)
     ctx.stat(f"nfa_origin:{origin}")
     ctx.stat(f"nfa_live_mode:{mode}")
     for upto, what in bad:
-        ctx.prop_fail(what, rp(hist[:upto], what), None)
+        ctx.prop_fail(what, rp((hist + extra)[:upto], what), None)
     line = ctx.driver(L.DRV).ask(toks("NHISTORY", enc, len(hist), [enc_nquery(sy, q) for q in hist]))
     for i, (q, a, mm, part) in enumerate(zip(hist, real, memos, line.split(" | ") if hist else [])):
         ans, memo, same = part.split(" ; ")
